@@ -4,8 +4,8 @@ import lib
 from lib import *
 
 SUBSETS = {
-    "C02": {"check_chain_d0", "check_chain_d3", "check_chain_d6", "check_wide", "batch_chain_d0", "batch_chain_d6", "grpc_check_chain_d0"},
-    "C08": {"check_chain_d0", "check_m", "batch_chain_d0", "batch_chain_d6", "grpc_check_chain_d0", "list_n", "list_m"},
+    "C02": {"check_rw", "check_chain_d0", "check_chain_d3", "check_chain_d6", "check_wide", "batch_chain_d0", "batch_chain_d6", "grpc_check_chain_d0"},
+    "C08": {"check_rw", "check_chain_d0", "check_m", "batch_chain_d0", "batch_chain_d6", "grpc_check_chain_d0", "list_n", "list_m"},
     "C09": {"expand_d0", "expand_d3", "expand_d6", "grpc_expand_d0", "check_chain_d0"},
 }
 
